@@ -16,14 +16,14 @@ CONSTANT K      \* maximal number of output lines
 
 Classes == {"plain", "blank", "ws_only", "trail_ws", "lead_ws", "looks_code", "looks_cmd", "looks_cont", "fence3", "fence4",
             "sfx_kind", "sfx_quant", "sfx_empty", "sfx_esc", "sfx_noeol", "bslash", "ctrl", "bslash_ctrl", "utf8",
-            "utf8_other", "invalid_utf8", "hash"}
+            "utf8_other", "invalid_utf8", "hash", "fence_indent"}
 \* what a line of the class could be mistaken for when written verbatim into a test block
 Collides(c, fmt) ==
     CASE c = "looks_code" -> "exit-code"
       [] c = "looks_cmd"  -> IF fmt = "cram" THEN "command" ELSE "none"
       [] c = "looks_cont" -> "continuation"            \* only directly after the command
       [] c \in {"sfx_kind", "sfx_quant", "sfx_esc", "sfx_noeol"} -> "modifier"
-      [] c \in {"fence3", "fence4"} -> IF fmt = "md" THEN "fence" ELSE "none"
+      [] c \in {"fence3", "fence4", "fence_indent"} -> IF fmt = "md" THEN "fence" ELSE "none"
       [] c \in {"blank", "ws_only"} -> IF fmt = "cram" THEN "block-end" ELSE "none"
       [] OTHER -> "none"
 NeedsEscape(c, esc) == c \in {"ctrl", "bslash_ctrl", "invalid_utf8", "utf8_other"} \/ (esc = "ascii" /\ c = "utf8")
